@@ -447,6 +447,7 @@ fn fault_backend<B: Backend>(opts: &Opts, rep: &mut Report) {
                     let mut outs = vec![];
                     let mut os_draws = 0;
                     for _ in 0..40 {
+                        heartbeat(&class);
                         let (r2, st2) = shim.window(-1, -1, None, || guard(|| (op.run)()));
                         os_draws += st2.draws;
                         match r2 {
